@@ -124,6 +124,8 @@ class RMAX(Learns):
         self.s_a_counts = np.zeros((self.n_states, self.n_actions))  # used to count the number of (s, a) transitions seen
         
         self.q_matrix = np.ones((self.n_states, self.n_actions)) * self.rmax * 1/(1-mdp.discount_rate)
+        # the cached self-loop model has the shape of the previously trained MDP: drop it when the learner is reused
+        self.__dict__.pop('_cached__self_transition_mat', None)
 
     def _act(self, state, rng):
         """advance one step during training by picking an action"""
